@@ -9,6 +9,7 @@
 -/
 import ClairModel.Proofs.Match
 import ClairModel.Proofs.MatchProto
+import ClairModel.Proofs.EnrichProto
 
 namespace ClairModel.Props.C05
 open ClairModel ClairModel.Match
@@ -532,6 +533,94 @@ theorem protocol_cancel_is_error (s : State) (hc : s.parentCancelled = true)
   · simp [hc]
   · rename_i h1; simp [h1] at hw
 
+/-- Protocol and functional model meet: in a final state without error the
+    report the collector built from the results in the order it received them
+    is the report of the functional model (`collectOuts` over the matcher
+    slice in order): same table, same ids under every package up to order —
+    for every interleaving. (`outs i` is the result of matcher `i`.) -/
+theorem protocol_report_is_functional (lim n : Nat) (ops : List Op) (outs : Nat → Match.MOut)
+    (hf : final (Sm.run step (init lim (List.range n)) ops) = true)
+    (hok : (Sm.run step (init lim (List.range n)) ops).senderErr = false)
+    (hfun : IdFunctional (((List.range n).map outs).flatMap events)) :
+    (∀ id, find id (collectOuts ((Sm.run step (init lim (List.range n)) ops).collected.map outs)).vulns
+        = find id (collectOuts ((List.range n).map outs)).vulns) ∧
+    (∀ pkg, (getL pkg (collectOuts ((Sm.run step (init lim (List.range n)) ops).collected.map outs)).pkgVulns).Perm
+        (getL pkg (collectOuts ((List.range n).map outs)).pkgVulns)) := by
+  have hp := (protocol_no_lost_results lim (List.range n) ops hf hok).symm.map outs
+  have h := arrival_order_irrelevant _ _ hp hfun
+  exact ⟨fun id => (h.1 id).symm, fun pkg => (h.2 pkg).symm⟩
+
 end Protocol
+
+/-! ## The channel protocol of the enrichment phase (the atomic close counter)
+
+  Model/EnrichProto.lean: sender, `lim` workers, collector, `eCh`, `rCh` and
+  the counter `ct` whose last decrement closes `rCh`.  Tied to match.go by
+  controlled-schedule runs through the hook points `en.*`. -/
+
+section Enrichment
+open ClairModel.EnrichProto
+
+/-- `rCh` is closed exactly once and never sent on afterwards; `eCh` is closed
+    once: no reachable state has panicked, no transition out of a reachable
+    state panics. -/
+theorem enrich_no_send_on_closed (lim : Nat) (es : List Nat) (ops : List Op) :
+    (Sm.run step (init lim es) ops).panicked = false ∧
+      ∀ op, (step (Sm.run step (init lim es) ops) op).2 ≠ .panic :=
+  ⟨(reachable_inv lim es ops).noPanic, fun op => step_never_panics (reachable_inv lim es ops) op⟩
+
+/-- The atomic counter always equals the number of workers that have not
+    returned, and `rCh` is closed exactly when that number is zero (for
+    `lim ≥ 1`): the counter reaches zero once, after every worker's last send. -/
+theorem enrich_counter_closes_once (lim : Nat) (hlim : 0 < lim) (es : List Nat) (ops : List Op) :
+    let s := Sm.run step (init lim es) ops
+    s.ct = notRet s.workers ∧ (s.rCloses = if notRet s.workers = 0 then 1 else 0) := by
+  intro s
+  have h := reachable_inv lim es ops
+  have hl : s.lim = lim := by
+    have : ∀ (ops : List Op) (s : State), (Sm.run step s ops).lim = s.lim := by
+      intro ops
+      induction ops with
+      | nil => intro s; rfl
+      | cons op ops ih => intro s; rw [Sm.run_cons, ih, lim_const]
+    exact this ops _
+  refine ⟨h.ctEq, ?_⟩
+  by_cases hz : notRet s.workers = 0
+  · simp only [hz, if_true]; exact h.rClosed hz (by rw [hl]; exact hlim)
+  · simp only [hz, if_false]; exact h.rOpen hz
+
+/-- Deadlock freedom of the enrichment phase. -/
+theorem enrich_deadlock_free (lim : Nat) (hlim : 0 < lim) (es : List Nat) (ops : List Op)
+    (hnf : final (Sm.run step (init lim es) ops) = false) :
+    ∃ op, internal op = true ∧ (step (Sm.run step (init lim es) ops) op).2 = .ok := by
+  have h := reachable_inv lim es ops
+  apply exists_enabled h _ hnf
+  have : ∀ (ops : List Op) (s : State), (Sm.run step s ops).lim = s.lim := by
+    intro ops
+    induction ops with
+    | nil => intro s; rfl
+    | cons op ops ih => intro s; rw [Sm.run_cons, ih, lim_const]
+  rw [this]
+  exact hlim
+
+/-- Termination bound of the enrichment phase (enrichers are assumed to return). -/
+theorem enrich_terminates (lim : Nat) (es : List Nat) (ops : List Op)
+    (h : allOk (init lim es) ops = true) : ops.length ≤ 5 * es.length + lim + 4 := by
+  have := run_length_bound (init lim es) ops h
+  rw [measure_init] at this
+  omega
+
+/-- Without cancellation the phase ends without error and every enricher's
+    entry is either collected exactly once or was skipped because the enricher
+    failed or had nothing to report: nothing is lost in the fan-in, for every
+    interleaving. -/
+theorem enrich_nothing_lost (lim : Nat) (es : List Nat) (ops : List Op)
+    (hf : final (Sm.run step (init lim es) ops) = true)
+    (hc : (Sm.run step (init lim es) ops).cancelled = false) :
+    (Sm.run step (init lim es) ops).workerErr = false ∧
+      ((Sm.run step (init lim es) ops).collected ++ (Sm.run step (init lim es) ops).skipped).Perm es :=
+  final_uncancelled (reachable_inv lim es ops) hf hc
+
+end Enrichment
 
 end ClairModel.Props.C05
